@@ -33,7 +33,9 @@ ASSUMPTIONS = ["reorganisation energy by independent quadrature",
 def required_cells(tier):
     return {"variant:commuting": 8, "variant:canonical": 4,
             "variant:weak": 2, "variant:covariance": 4, "variant:history": 4,
-            "lowT": 3, "complexH": 6, "n_steps:2": 1, "n_steps>=20": 2}
+            "lowT": 3, "complexH": 6, "n_steps:2": 1, "n_steps>=20": 2,
+            "energy-offset:+20": 2, "energy-offset:-20": 2,
+            "energy-offset:+35": 2, "preused_correlations": 10}
 
 
 def cases(tier, seed):
@@ -106,8 +108,20 @@ def run_case(case):
         cells.append("n_steps>=20")
     gp = oqupy.GibbsParameters(n_steps, epsrel)
 
+    preused = bool((i // 7) % 2)
+
     def gibbs(h, pp=p, params=gp):
         corr = gen.make_power_law(pp) if i % 2 else gen.make_custom_sd(pp)
+        if preused:
+            # the same correlations object has answered REAL-time questions
+            # for exactly the arguments the imaginary-time network will ask
+            dtau = 1.0 / (pp["temperature"] * params.n_steps)
+            for k in range(min(params.n_steps, 12) + 1):
+                corr.correlation_2d_integral(
+                    dtau, k * dtau,
+                    shape="upper-triangle" if k == 0 else "square")
+                corr.eta_function(k * dtau)
+            monitors["preused_correlations"] = 1
         return oqupy.gibbs_tempo_compute(oqupy.System(h),
                                          oqupy.Bath(oper, corr), params,
                                          progress_type="silent")
@@ -115,6 +129,12 @@ def run_case(case):
     nontrivial = True
     if variant == "commuting":
         e = rng.normal(size=d)
+        # the zero of energy is arbitrary (also far from 0 in units of T:
+        # the imaginary-time network is not normalised, its norm is
+        # exp(-E_min/T))
+        shift = [0.0, 20.0, -20.0, 35.0][(i // 2) % 4]
+        e = e + shift * temp
+        cells.append("energy-offset:%+g" % shift)
         state = gibbs(np.diag(e).astype(complex))
         ref = models.gibbs_commuting(e, o, lam, temp)
         noshift = models.gibbs_commuting(e, o, 0.0, temp)
